@@ -273,6 +273,31 @@ NATIVE_EXC = (TypeError, ValueError, IndexError, KeyError, AttributeError, ZeroD
 
 
 AND_MINUS_ONE_WIDTHS = (16, 64, 256)
+_MODULE_STATE = {}
+
+
+def module_state_guard(o, what):
+    """a write into a container that is a module-level (or class-level) object of the library is a side effect that outlives
+    the call: later calls may see it.  One call in isolation cannot decide such code, so the unit is undecided (the
+    history-based stand-ins on the real code are what can still refute it)."""
+    import sys
+    if not _MODULE_STATE:
+        _MODULE_STATE[0] = None
+        for name, mod in list(sys.modules.items()):
+            if mod is None or not (name == 'mido' or name.startswith('mido.')):
+                continue
+            for k, val in list(vars(mod).items()):
+                if isinstance(val, (dict, list, set, collections.deque)) and not k.startswith('__'):
+                    _MODULE_STATE[id(val)] = '%s.%s' % (name, k)
+                elif isinstance(val, type) and getattr(val, '__module__', '').startswith('mido'):
+                    for k2, v2 in list(vars(val).items()):
+                        if isinstance(v2, (dict, list, set, collections.deque)) and not k2.startswith('__'):
+                            _MODULE_STATE[id(v2)] = '%s.%s.%s' % (name, k, k2)
+    nm = _MODULE_STATE.get(id(o))
+    if nm is not None:
+        raise Unsupported('%s on module-level state %s of the library (a side effect that outlives the call)' % (what, nm))
+
+
 EXECUTED = set()      # repo functions whose real body was executed symbolically in this process (evidence only)
 
 
@@ -1332,6 +1357,8 @@ class Interp:
             raise Unsupported('assign target ' + type(t).__name__)
 
     def store_subscript(self, o, k, v):
+        if isinstance(o, (dict, list)):
+            module_state_guard(o, 'item assignment')
         if isinstance(o, dict):
             if is_sym(k):
                 raise Unsupported('dict store with symbolic key')
